@@ -20,6 +20,9 @@ pub struct ReqCase {
     pub plan: Plan,
     /// entries (scaled indices into the complete signed list) to drop before signing
     pub drop: Vec<u16>,
+    /// also remove the dropped header from the request itself (so every header the request carries stays signed)
+    #[serde(default)]
+    pub remove_from_request: bool,
 }
 
 pub fn subs() -> Vec<Box<dyn AnySub>> {
@@ -36,7 +39,7 @@ pub fn subs() -> Vec<Box<dyn AnySub>> {
                     plain_spelling: false,
                     ..PlanOpts::default()
                 };
-                (plan(o), proptest::collection::vec(any::<u16>(), 0..3)).prop_map(|(plan, drop)| ReqCase { plan, drop }).boxed()
+                (plan(o), proptest::collection::vec(any::<u16>(), 0..3), any::<bool>()).prop_map(|(plan, drop, remove_from_request)| ReqCase { plan, drop, remove_from_request }).boxed()
             },
             check: check_reqs,
         }),
@@ -61,7 +64,14 @@ pub fn check_reqs(rc: &ReqCase, cc: &mut CaseCtx) -> CheckResult {
         let i = pick_idx(*d, spec.signed_headers.len());
         dropped.push(spec.signed_headers.remove(i));
     }
-    let base = p.base();
+    let mut base = p.base();
+    if rc.remove_from_request {
+        for d in &dropped {
+            if d != "host" {
+                base.headers.retain(|(n, _)| !n.eq_ignore_ascii_case(d));
+            }
+        }
+    }
     let Ok(signed) = sign(&base, &p.cfg, &spec) else {
         cc.class("unsignable");
         return Ok(());
@@ -103,6 +113,7 @@ pub fn check_reqs(rc: &ReqCase, cc: &mut CaseCtx) -> CheckResult {
         }
     }
     cc.class_if(prefix_matches >= 2, "several-prefix-matches");
+    cc.class_if(rc.remove_from_request && !dropped.is_empty(), "dropped-header-also-absent-from-request");
     cc.class_if(p.cfg.reqs.route == 0, "route-slice");
     cc.class_if(p.cfg.reqs.route == 1, "route-vec-new");
     cc.class_if(p.cfg.reqs.route == 2, "route-vec-add");
